@@ -376,7 +376,7 @@ fn stress(c: &Ctx, threads: usize, rounds: usize) {
 }
 
 pub fn run(c: &Ctx) {
-    c.set_rule("controlled scheduler on hook H1: real threads park before every MemfsGuard acquisition and exactly one is released at a time, so an execution is a function of (seed state, program, schedule). For every program ALL interleavings at critical-section granularity are enumerated depth-first (cap per program noted). Programs: quick = all 2-thread programs with (1,1) calls over a 15-form core alphabet and a seeded quarter of the (2,1) programs from a populated seed state, and all (1,1) programs over the full 40-form alphabet from two more seed states (nested dirs + link; cwd below root); thorough = all (1,1),(2,1) over the 40-form alphabet, seeded samples of (2,2),(1,1,1),(2,1,1), four seed states, plus uncontrolled 8-thread stress rounds. Oracle per execution: no nested guard acquisition (would dead-lock), no panic, every call returns, C03 invariants at quiescence, every successful append_all payload exactly once, and linearizability: per-call results (Ok values; Err-ness) and the final tree equal those of SOME sequential order of the same calls on a fresh instance that respects program order and real-time precedence. Non-trivial = execution in which calls of different threads overlap in time and one mutates; distinct by (seed, program, schedule).");
+    c.set_rule("controlled scheduler on hook H1: real threads park before every MemfsGuard acquisition and exactly one is released at a time, so an execution is a function of (seed state, program, schedule). For every program ALL interleavings at critical-section granularity are enumerated depth-first (cap per program noted). Programs: quick = all 2-thread programs with (1,1) calls over a 15-form core alphabet and a seeded quarter of the (2,1) programs from a populated seed state, all 448 'two mutators of one directory vs one listing/reader' programs, and all (1,1) programs over the full 40-form alphabet from two more seed states (nested dirs + link; cwd below root); thorough = all (1,1),(2,1) over the 40-form alphabet, seeded samples of (2,2),(1,1,1),(2,1,1), four seed states, plus uncontrolled 8-thread stress rounds. Oracle per execution: no nested guard acquisition (would dead-lock), no panic, every call returns, C03 invariants at quiescence, every successful append_all payload exactly once, and linearizability: per-call results (Ok values; Err-ness) and the final tree equal those of SOME sequential order of the same calls on a fresh instance that respects program order and real-time precedence. Non-trivial = execution in which calls of different threads overlap in time and one mutates; distinct by (seed, program, schedule).");
     c.assume("all shared state of Memfs is behind the one RwLock (safe Rust): interleavings at guard granularity are complete; sequential specification = Memfs itself run single-threaded (functional correctness is C01's job)");
     install_hook();
     let quick = c.tier == Tier::Quick;
@@ -397,6 +397,25 @@ pub fn run(c: &Ctx) {
             jobs.push((2, p.clone()));
             jobs.push((3, p));
         }
+        // a listing / reader racing two mutators of the same directory (snapshots must be atomic)
+        let mutators = vec![
+            Op::RemoveAll(s("/a")),
+            Op::Mkfile(s("/a")),
+            Op::MoveP(s("/a"), s("/e")),
+            Op::MkdirP(s("/a/c")),
+            Op::Remove(s("/a/f")),
+            Op::WriteAll(s("/a/f"), b"W".to_vec()),
+            Op::MkdirP(s("/a")),
+            Op::Copy(s("/b"), s("/a")),
+        ];
+        let readers = vec![Op::Paths(s("/a")), Op::Files(s("/a")), Op::Dirs(s("/a")), Op::AllPaths(s("/a")), Op::AllFiles(s("/")), Op::ReadAll(s("/a/f")), Op::Entries(s("/a"))];
+        for m1 in &mutators {
+            for m2 in &mutators {
+                for r in &readers {
+                    jobs.push((1, vec![vec![m1.clone(), m2.clone()], vec![r.clone()]]));
+                }
+            }
+        }
     } else {
         for seed in [0u8, 1, 2, 3] {
             for p in programs(&full, &[1, 1]) {
@@ -404,7 +423,9 @@ pub fn run(c: &Ctx) {
             }
         }
         for (i, p) in programs(&full, &[2, 1]).into_iter().enumerate() {
-            jobs.push(((i % 3) as u8 + 1, p));
+            if sampled(c.seed, 46, i as u64, 1, 4) {
+                jobs.push(((i % 3) as u8 + 1, p));
+            }
         }
         for (i, p) in programs(&core, &[2, 2]).into_iter().enumerate() {
             if sampled(c.seed, 43, i as u64, 1, 10) {
